@@ -647,16 +647,53 @@ Proof.
 Qed.
 
 (* ---- component ---- *)
-Lemma precv_routed items : routed (precv items) = processed items.
+Lemma precv_k_routed fin items :
+  routed (precv_k fin items) = processed items ++ (if reaches_end items then routed fin else []).
 Proof.
-  induction items as [|i items IH]; [reflexivity|].
-  destruct i; cbn [precv processed stops]; try reflexivity;
-    cbn [routed flat_map app]; fold (routed (precv items)); rewrite IH; reflexivity.
+  unfold reaches_end. induction items as [|i items IH]; [reflexivity|].
+  destruct i; cbn [precv_k processed stops forallb negb andb]; try reflexivity;
+    cbn [routed flat_map app]; fold (routed (precv_k fin items)); rewrite IH; reflexivity.
 Qed.
+Lemma precv_routed items : routed (precv items) = processed items.
+Proof. unfold precv. rewrite precv_k_routed. destruct (reaches_end items); apply app_nil_r. Qed.
+Lemma precv_handover_routed t items :
+  routed (precv_handover t items) = processed items ++ (if reaches_end items then [IStreamError t] else []).
+Proof. unfold precv_handover. rewrite precv_k_routed. reflexivity. Qed.
 
 Definition all_sync (tr : list action) : bool :=
   forallb (fun a => match a with ARouteAsync _ => false | _ => true end) tr.
+Lemma precv_k_sync fin items : all_sync fin = true -> all_sync (precv_k fin items) = true.
+Proof. intros H. induction items as [|i items IH]; [exact H|]. destruct i; cbn; try exact IH; reflexivity. Qed.
 Lemma precv_sync items : all_sync (precv items) = true.
-Proof. induction items as [|i items IH]; [reflexivity|]. destruct i; cbn; try exact IH; reflexivity. Qed.
+Proof. apply precv_k_sync. reflexivity. Qed.
+Lemma precv_k_no_answers fin items : attempted fin = [] -> attempted (precv_k fin items) = [].
+Proof. intros H. induction items as [|i items IH]; [exact H|]. destruct i; cbn; try exact IH; reflexivity. Qed.
 Lemma precv_no_answers items : attempted (precv items) = [].
-Proof. induction items as [|i items IH]; [reflexivity|]. destruct i; cbn; try exact IH; reflexivity. Qed.
+Proof. apply precv_k_no_answers. reflexivity. Qed.
+
+(* the component reports every ending exactly once: one Disconnected event unless its transport was taken
+   over behind a stream error; one error callback per stream error, plus one unless the server closed *)
+Lemma precv_k_counts fin (fd fe : nat) items :
+  count_act is_disc fin = fd -> count_act is_err fin = fe ->
+  count_act is_disc (precv_k fin items) = (if reaches_end items then fd else 1)%nat /\
+  count_act is_err (precv_k fin items)
+  = ((if reaches_end items then fe else if ends_by_close items then 0 else 1)
+     + length (filter is_serr (processed items)))%nat.
+Proof.
+  intros Hd He. unfold reaches_end, ends_by_close.
+  induction items as [|i items IH]; [cbn [precv_k forallb processed filter length]; rewrite Hd, He; split; [reflexivity|lia]|].
+  destruct IH as [IH1 IH2].
+  destruct i; cbn [precv_k how_ended processed stops forallb negb andb filter is_serr];
+    try (split; reflexivity);
+    rewrite !count_act_cons; cbn [is_disc is_err length]; rewrite IH1, IH2; split; lia.
+Qed.
+Lemma precv_reported_once items :
+  count_act is_disc (precv items) = 1%nat /\
+  count_act is_err (precv items)
+  = ((if ends_by_close items then 0 else 1) + length (filter is_serr (processed items)))%nat.
+Proof.
+  destruct (precv_k_counts preport_loss 1 1 items eq_refl eq_refl) as [H1 H2]. unfold precv.
+  split; [rewrite H1; destruct (reaches_end items); reflexivity|].
+  rewrite H2. destruct (reaches_end items) eqn:E; [|reflexivity].
+  unfold ends_by_close. rewrite (reaches_end_cut items E). reflexivity.
+Qed.
